@@ -45,6 +45,17 @@ struct Scenario {
     /// instead of the ROM's own life: a program that, once per frame, programs an AY register, reads it back, reads the
     /// Kempston port and a keyboard half-row (with the EAR bit) and logs all of that in RAM
     probe: bool,
+    /// a program that calls the ROM's tape block routine (served by the fast-load trap) so that the jump to the trap address
+    /// is the very instruction during which the frame ends, or one a few T-states beside it: number of padding NOPs
+    edge: Option<usize>,
+}
+
+/// two per-instruction events at once: the frame end and the fast-load trap
+fn edge_scenario(r: &mut Rng, k: u64, frames: usize) -> Scenario {
+    let m128 = k % 2 == 1;
+    let l0 = if m128 { 808 } else { 553 };
+    Scenario { m128, tape: tap_bytes(&[good_block(0x00, &r.bytes(17))]), script: vec![], frames, play_at: usize::MAX, load: false,
+               probe: false, edge: Some(l0 + r.below(4) as usize) }
 }
 
 fn scenario(r: &mut Rng, k: u64, frames: usize) -> Scenario {
@@ -72,7 +83,7 @@ fn scenario(r: &mut Rng, k: u64, frames: usize) -> Scenario {
     // load scenarios: the tape either stays stopped until late (the ROM's request is served by the fast-load trap) or
     // plays from the start (the ROM loads in real time)
     let play_at = if load { if k % 8 >= 4 { 0 } else { 4 * (10 + r.below(10) as usize) } } else { 4 * (1 + r.below(10) as usize) };
-    Scenario { m128, tape: tap_bytes(&blocks), script, frames, play_at, load, probe: !load && (k / 4) % 2 == 1 }
+    Scenario { m128, tape: tap_bytes(&blocks), script, frames, play_at, load, probe: !load && (k / 4) % 2 == 1, edge: None }
 }
 
 const PROBE: [u8; 42] = [
@@ -86,7 +97,7 @@ fn build(s: &Scenario, asset: &str, sound: bool, ay: bool) -> Emu {
     cfg.ay = ay;
     cfg.kempston = true;
     cfg.autoload = s.load;
-    cfg.fastload = s.load;
+    cfg.fastload = s.load || s.edge.is_some();
     let mut emu = cfg.build();
     let a: DynAsset = match asset {
         "mem" => DynAsset::mem(s.tape.clone()),
@@ -109,6 +120,30 @@ fn build(s: &Scenario, asset: &str, sound: bool, ay: bool) -> Emu {
         }
     };
     emu.load_tape(Tape::Tap(a)).unwrap();
+    if let Some(l) = s.edge {
+        use crate::files::*;
+        // DI; LD BC,2600; (DEC BC; LD A,B; OR C; JR NZ) = 67600 - 5 T; l NOPs; LD IX,0x9000; LD DE,17; LD A,0; SCF;
+        // LD HL,ret; PUSH HL; JP 0x056B - the jump starts at T = 65 + 67600 + 4 l of the first frame;
+        // ret: LD A,R; LD (0x9100),A; JR $
+        let mut p: Vec<u8> = vec![0xF3, 0x01, 0x28, 0x0A, 0x0B, 0x78, 0xB1, 0x20, 0xFB];
+        p.extend(std::iter::repeat(0u8).take(l));
+        let ret = 0x8000 + p.len() as u16 + 4 + 3 + 2 + 1 + 3 + 1 + 3;
+        p.extend([0xDD, 0x21, 0x00, 0x90, 0x11, 0x11, 0x00, 0x3E, 0x00, 0x37, 0x21, ret as u8, (ret >> 8) as u8, 0xE5, 0xC3, 0x6B, 0x05]);
+        assert_eq!(0x8000 + p.len() as u16, ret);
+        p.extend([0xED, 0x5F, 0x32, 0x00, 0x91, 0x18, 0xFE]);
+        let mut banks: Vec<Vec<u8>> = (0..8).map(|_| vec![0u8; 16384]).collect();
+        banks[2][..p.len()].copy_from_slice(&p);
+        let d = MachineDesc {
+            m128: s.m128,
+            cpu: CpuDesc { af: 0, bc: 0, de: 0, hl: 0, af_: 0, bc_: 0, de_: 0, hl_: 0, ix: 0, iy: 0x5C3A, sp: 0xBFF0, pc: 0x8000,
+                           i: 0x3F, r: 0, iff1: false, iff2: false, im: 1 },
+            border: 3,
+            latch: 0x10,
+            banks,
+        };
+        let bytes = if s.m128 { sna128(&d) } else { sna48(&d) };
+        emu.load_snapshot(rustzx_core::host::Snapshot::Sna(VAsset::new(bytes))).unwrap();
+    }
     if s.probe {
         use crate::files::*;
         let mut banks: Vec<Vec<u8>> = (0..8).map(|_| vec![0u8; 16384]).collect();
@@ -257,8 +292,9 @@ pub fn run(args: &Args) {
     let mut r = Rng::new(seed ^ 0xC16);
     let split = |d: u64| -> Value { json!([(d & 0x3FFF_FFFF) as u32, ((d >> 30) & 0x3FFF_FFFF) as u32]) };
     let base = args.num("base", 0);
-    for k in base..base + scenarios {
-        let s = scenario(&mut r, k, frames);
+    let edges = args.num("edge", 0);
+    for k in (base..base + scenarios).chain(1000..1000 + edges) {
+        let s = if k >= 1000 { edge_scenario(&mut r, k, 8) } else { scenario(&mut r, k, frames) };
         for driving in ["one", "one", "n", "n", "max1", "bp", "bp", "bp1", "bpn", "bpn", "mix", "mix", "soundoff", "ayoff", "toggles", "nodrain", "chunk1", "chunk7", "file", "gzip"] {
             if std::env::var("VH_DEBUG").is_ok() { eprintln!("scenario {k} driving {driving}"); }
             let (d, audio, audio_n, stuck) = drive(&s, driving, &mut r);
